@@ -117,6 +117,8 @@ Definition point_ok (names : list name) (o : seen) : bool :=
        the three waiting selects (e.g. on the storage lock behind another worker) *)
     (count (fun p => match p with AtIssue => true | _ => false end) ps <=? 1)%nat &&
     negb (existsb (fun p => match p with Running => true | _ => false end) ps) &&
+    (* no handshake has returned the empty certificate (no chain / no private key) with a nil error *)
+    negb (existsb (fun p => match p with DoneEmpty => true | _ => false end) ps) &&
     (* a goroutine waits only on a channel that is still registered ... *)
     (negb (existsb (fun p => match p with WaitLoad => true | _ => false end) ps) || mem_nat n (s_lmap o)) &&
     (negb (existsb (fun p => match p with WaitObtain | WaitRenew => true | _ => false end) ps) || mem_nat n (s_omap o)) &&
